@@ -13,7 +13,7 @@
    the code's strconv.Quote / raw writing). *)
 From Coq Require Import String List NArith ZArith Bool.
 From J5V.lib Require Import Outcome Corr.
-From J5V.model Require Import ProtoPrintLit ProtoPrint ProtoLex ProtoPrintCorr ProtoPrintFile ProtoParseFile ProtoPrintFileWf.
+From J5V.model Require Import ProtoPrintLit ProtoPrint ProtoLex ProtoLayout ProtoPrintCorr ProtoPrintFile ProtoParseFile ProtoPrintFileWf ProtoPrintFileErase.
 Import ListNotations.
 Local Open Scope N_scope.
 Local Open Scope bool_scope.
@@ -132,6 +132,8 @@ Definition c05_file_check (c : c05file) : bool :=
           && wf_dfile_b imp d && wf_dfile_b imp d2
           && strings_plain d && strings_plain d2
           && lex_agrees text toks
+          && is_layout (print_file_tokens_nc (to_symtab (dfile_symtab imp d)) d) text
+          && is_layout (print_file_tokens_nc (to_symtab (dfile_symtab imp d2)) d2) text
       | None => false
       end
   end.
@@ -153,7 +155,9 @@ Definition c05_file_diag (c : c05file) : N :=
                 | Some d' => if negb (dfile_content_eqb d' d2) then 5
                              else if negb (wf_dfile_b imp d) then 6 else if negb (wf_dfile_b imp d2) then 7
                              else if negb (strings_plain d && strings_plain d2) then 8
-                             else if negb (lex_agrees text toks) then 10 else 0
+                             else if negb (lex_agrees text toks) then 10
+                             else if negb (is_layout (print_file_tokens_nc (to_symtab (dfile_symtab imp d)) d) text) then 11
+                             else if negb (is_layout (print_file_tokens_nc (to_symtab (dfile_symtab imp d2)) d2) text) then 12 else 0
                 end
             end
       | None => 9
